@@ -11,6 +11,7 @@ LOG = []
 SEQ = itertools.count()
 SCRIPT = {}
 HOOK_CALLBACK = [None]  # optional callable(tag, hook, args) run inside every hook (scheduler for C15)
+CONSTRUCTED = []
 
 
 def reset():
@@ -73,3 +74,23 @@ class RecC(RecOnly):
 
 class RecD(RecOnly):
     pass
+
+
+# ---- record-time canonicalisation used by generated analysis modules (harness/runner.py)
+def record(tag, hook, args):
+    import vsupport
+
+    head = list(args[:2])
+    canon = [a if isinstance(a, (str, int)) and not isinstance(a, bool) else vsupport.cr(a) for a in head]
+    canon += [vsupport.cr(a) for a in args[2:]]
+    LOG.append((tag, next(SEQ), hook, canon))
+    cb = HOOK_CALLBACK[0]
+    if cb is not None:
+        cb(tag, hook, args)
+    q = SCRIPT.get((tag, hook))
+    if q:
+        v = q.pop(0)
+        if callable(v) and getattr(v, "_verif_lazy", False):
+            return v(args)
+        return v
+    return None
